@@ -34,7 +34,9 @@ ASSUMPTIONS = ['html.parser tokenisation; the neutral text for the structure com
 ALPHABET = ['{', '}', '#', '/', '<', '>', '"', '&', ':', ' ', '\n', 'x']
 PATHS = [('/', 'GET'), ('/x/y', 'GET'), ('/clastic_assets/nope', 'GET'), ('/<b>{x}', 'GET'), ('/', 'POST'), ('/x/y', 'POST'),
          ('/clastic_assets/../x', 'GET'), ('/clastic_assets//etc/passwd', 'GET'), ('/clastic_assets/a/../../b', 'GET'),
-         ('/', 'PROPFIND'), ('/x/y', 'purge'), ('/', 'get'), ('/', 'HEAD'), ('/x', 'OPTIONS')]
+         ('/', 'PROPFIND'), ('/x/y', 'purge'), ('/', 'get'), ('/', 'HEAD'), ('/x', 'OPTIONS'),
+         # the mount point itself (empty PATH_INFO) and paths made of slashes only
+         ('', 'GET'), ('//', 'GET'), ('///', 'POST')]
 
 
 def deadline_passed():
